@@ -1,10 +1,12 @@
 pub mod c01;
 pub mod c02;
+pub mod c03;
 pub mod c04;
 pub mod c05;
 pub mod c06;
 pub mod c07;
 pub mod c09;
+pub mod c11;
 
 use crate::evidence::Ev;
 use crate::ledger::{self, GTx, GenCfg, Kind, Ledger};
